@@ -215,7 +215,7 @@ end
 inductive Content
   | const (v : S)
   | formula (text : Text)
-  deriving Repr, Inhabited
+  deriving Repr, Inhabited, DecidableEq
 
 structure Source where
   cells : List (Text × Content)        -- the input dict, in order (keys with or without sheet)
